@@ -300,6 +300,20 @@ theorem rp_negative_unlimited (fo fc io : Bool) (m : Int) (hm : m < 0) (jobs : L
   have := (h _ hmem).2
   simp [toGaugeLocal, hpc] at this
 
+/-- a limit at least the number of callers refuses nobody -/
+theorem rp_large_limit_never_rejects (fo fc io : Bool) (m : Int) (jobs : List Run.Job)
+    (hm : (jobs.length : Int) ≤ m) (sched : List Nat)
+    (i : Nat) : resultOf (run sys (init fo fc io m jobs) sched) i ≠ some Run.Res.rejected := by
+  intro hr
+  obtain ⟨l, hl, hpc⟩ := rp_resultOf hr
+  obtain ⟨sched', hs'⟩ := rp_gauge_reach fo fc io m jobs sched
+  have h := CM.Props.C04.large_limit_never_rejects m jobs.length hm sched'
+  rw [hs'] at h
+  have hmem : toGaugeLocal l ∈ (toGauge (run sys (init fo fc io m jobs) sched)).locals :=
+    List.mem_map.mpr ⟨l, List.mem_of_getElem? hl, rfl⟩
+  have := (h _ hmem).2
+  simp [toGaugeLocal, hpc] at this
+
 /-- the gauge counts the region, and nobody is in the region once everybody has returned -/
 theorem rp_gauge_region (fo fc io : Bool) (m : Int) (jobs : List Run.Job) (sched : List Nat) :
     (run sys (init fo fc io m jobs) sched).shared.gauge = (run sys (init fo fc io m jobs) sched).shared.region.length ∧
